@@ -143,6 +143,9 @@ class LayeredArchitectureAutomaton:
             mods = arg if isinstance(arg, list) else [arg]
             if any(m in self.assigned for m in mods):
                 return "REJECT"
+            if not mods:
+                # an empty list supplies no modules: the layer is still waiting for its modules
+                return None
             self.pending()[0][1:] = [list(mods), "names"]
             self.assigned.update(mods)
             return None
